@@ -499,6 +499,7 @@ def run_process_node(ctx, k_none):
     except BaseException as e:
         if ctx.dead is not None:
             raise ctx.dead
+        ctx.classify(e)
         raised = e
     # postcondition
     ctx.check("post:no-exception-escapes-process_node", bool(raised is None), props=["C07", "C06"],
